@@ -38,8 +38,49 @@ class StepInterp(HelperCalls, NanInterp):
     """NaN-domain interpreter that also interprets calls of the step module's private functions and of
     the step class's own methods (helpers are read as code, whatever their shape)."""
 
+    def __init__(self, self_fields: Any = None) -> None:
+        super().__init__(self_fields)
+        # `from math import isclose, isfinite, fabs` spellings
+        for nm in ("isclose", "isfinite", "fabs"):
+            self.globals.setdefault(nm, ("builtin", nm))
+
     def snapshot(self) -> Any:
         return {"order": dict(self.order_facts)}  # the order facts of THIS path (kept in Outcome.state)
+
+    def builtin(self, name: str, pos: list[Any], kw: dict[str, Any], node: ast.AST) -> Any:
+        if name == "isclose" and len(pos) == 2:
+            return self.isclose(pos[0], pos[1], kw, node)
+        return super().builtin(name, pos, kw, node)
+
+    def isclose(self, a0: Any, b0: Any, kw: dict[str, Any], node: ast.AST) -> bool:
+        """math.isclose(a, b, rel_tol=1e-9, abs_tol=0.0) on abstract floats: False with a NaN, equal values are close, and
+        two *different* finite values are close or not -- a fork of its own (label `a ~ b`), taken only when a tolerance
+        admits it: against a literal zero the relative tolerance never does (|x| <= rel_tol * |x| needs rel_tol >= 1), so
+        `isclose(x, 0.0)` is the exact test and `isclose(x, 0.0, abs_tol=eps)` also holds for non-zero |x| <= eps."""
+        a, b = self.lift(a0), self.lift(b0)
+        rel, tol = self.lift(kw.get("rel_tol", 1e-9)), self.lift(kw.get("abs_tol", 0.0))
+        if not all(isinstance(x, F) for x in (a, b, rel, tol)) or set(kw) - {"rel_tol", "abs_tol"}:
+            raise AnalysisError("isclose() on values that are not floats")
+        if a.kind == "nan" or b.kind == "nan":
+            return False
+        if a is b:
+            return True
+        if a.kind == "inf" or b.kind == "inf":
+            return a.kind == b.kind and self.choose(2, f"{a.expr} == {b.expr}") == 1  # the same infinity
+        if self.compare_values(ast.Eq(), a, b, node):
+            return True
+
+        def number(x: Any) -> float | None:
+            try:
+                return float(x.expr)
+            except ValueError:
+                return None
+
+        rel_n, tol_n = number(rel), number(tol)
+        against_zero = any(x.zero is True for x in (a, b))
+        if tol_n == 0.0 and ((against_zero and rel_n is not None and rel_n < 1.0) or rel_n == 0.0):
+            return False
+        return self.choose(2, f"{a.expr} ~ {b.expr}") == 1
 
 
 def step_interp(prog: Program, fn: FuncInfo, fields: Any) -> StepInterp:
@@ -189,15 +230,33 @@ def check_steps(run: Run, prog: Program, drops_round: bool, total_rule: str = "C
                             path_labels=out.labels)
                     else:
                         run.ok("C13.NAN", inst, f"result NaN ({res.expr})")
+        import re
+
+        def zero_decided(out: Any) -> set[str]:
+            return {lab[: -len(" == 0")] for lab, d in zip(out.labels, out.decisions) if lab.endswith(" == 0") and d == 1}
+
+        divisors = {n for out, res, _i in finite_outs if not zero_decided(out) for n in names
+                    if re.search(rf"[/%] \(*{n}\b", getattr(res, "expr", ""))} if divides else set()
+        if not only_total:
+            # "None exactly when an input is missing or the result is undefined / not finite": with every operand
+            # present and finite and no divisor zero the result IS defined, so the step has to push a number
+            for out, res, inst in finite_outs:
+                if not isinstance(res, F) or (zero_decided(out) & divisors):
+                    continue
+                if res.kind == "fin":
+                    run.ok("C13.DEF", inst, "finite operands, defined result -> a number")
+                    continue
+                run.violation(
+                    "C13.DEF", fn.qual, _result_stmt(fn),
+                    f"every operand is present and finite and no divisor is zero, yet the step pushes {res.expr!r} "
+                    f"({'NaN' if res.kind == 'nan' else '+-inf'}) on path {_labels(out)}: the formula emits None (and every enclosing "
+                    "operator is voided) for a timestamp at which no input is missing and the result is well defined.  Only an "
+                    "*exact* zero divisor makes a quotient undefined -- a tolerance test in its place (`math.isclose(x, 0.0, "
+                    "abs_tol=eps)`, `abs(x) < eps`, `x < threshold`, rounding before the comparison) declares small valid "
+                    "readings, small differences of ordinary readings and small scalars undefined; the same holds for any other "
+                    "guard that turns finite operands into NaN / inf", node=fn.node, file=fn.file, path_labels=out.labels)
         if divides and not only_total:
             # an undefined result (zero divisor) must be NaN: the only value every enclosing step propagates
-            import re
-
-            def zero_decided(out: Any) -> set[str]:
-                return {lab[: -len(" == 0")] for lab, d in zip(out.labels, out.decisions) if lab.endswith(" == 0") and d == 1}
-
-            divisors = {n for out, res, _i in finite_outs if not zero_decided(out) for n in names
-                        if re.search(rf"[/%] \(*{n}\b", getattr(res, "expr", ""))}
             for out, res, inst in finite_outs:
                 hit = zero_decided(out) & divisors
                 if not hit:
@@ -804,6 +863,15 @@ def build_controls(prog: Program) -> list[tuple[str, str, str, str, str]]:
                 add("builder ignores nones_are_zeros", ENGINE, src_patch(
                     b.module, k.value.lineno, k.value.end_lineno or k.value.lineno,
                     lambda t: t.replace(f"nones_are_zeros={txt}", "nones_are_zeros=False", 1)), "C13.OUT")
+    # builder: a "pass-through" shortcut hands the operand's inner stream on
+    for c in calls_in(b, lambda c: isinstance(c.func, ast.Attribute) and c.func.attr == "push_metric")[:1]:
+        for a_ in list(c.args) + [k.value for k in c.keywords]:
+            if isinstance(a_, ast.Call) and isinstance(a_.func, ast.Attribute) and a_.func.attr == "new_receiver":
+                txt, base = seg(b.module, a_), seg(b.module, a_.func.value)
+                if txt and base:
+                    add("composition reads the operand's inner stream", ENGINE, stmt_patch(
+                        b, a_, lambda t, txt=txt, base=base: t.replace(txt, f'(getattr({base}, "_inner_stream", None) or {txt})', 1)), "C13.SUB")
+                break
     # Adder: a division sneaks in
     ad = step("Adder")
     for x in (x for x in ast.walk(ad.node) if isinstance(x, ast.BinOp) and isinstance(x.op, ast.Add)):
@@ -814,6 +882,19 @@ def build_controls(prog: Program) -> list[tuple[str, str, str, str, str]]:
     dv = step("Divider")
     for x in (x for x in ast.walk(dv.node) if isinstance(x, ast.Attribute) and u(x) == "math.nan"):
         add("Divider yields inf for a zero divisor", STEPS, stmt_patch(dv, x, lambda t: t.replace("math.nan", "math.inf", 1)), "C13.UNDEF")
+        break
+    # Divider: the exact zero test widened to a tolerance (small valid divisors become "undefined")
+    for c in (x for x in ast.walk(dv.node) if isinstance(x, ast.Compare) and len(x.ops) == 1 and isinstance(x.ops[0], (ast.Eq, ast.NotEq))):
+        sides = [c.left, c.comparators[0]]
+        zero = next((s_ for s_ in sides if isinstance(s_, ast.Constant) and s_.value == 0 and not isinstance(s_.value, bool)), None)
+        if zero is None:
+            continue
+        other = seg(dv.module, sides[1] if zero is sides[0] else sides[0])
+        txt = seg(dv.module, c)
+        neg = "not " if isinstance(c.ops[0], ast.NotEq) else ""
+        if txt and other:
+            add("Divider treats an almost-zero divisor as zero", STEPS, stmt_patch(
+                dv, c, lambda t, txt=txt, other=other, neg=neg: t.replace(txt, f"({neg}abs({other}) <= 1e-9)", 1)), "C13.DEF")
         break
     # the synchronisation drains a stream behind the fetcher's back
     sy = prog.func(f"{EVAL}:FormulaEvaluator.{first_run_sync_name(prog)}")
@@ -905,7 +986,73 @@ def run_rules(run: Run, prog: Program) -> None:
     check_read(run, prog)
     check_emit(run, prog)
     check_conv(run, prog)
+    check_sub(run, prog)
     check_policy_key(run, prog)
+
+
+def operand_stream_leaves(flow: Any, nid: int, expr: ast.AST, fuel: int = 8) -> list[tuple[Any, int, ast.AST | None, str]]:
+    """Everything the expression can evaluate to, followed through conditional expressions, `a or b`, walrus, locals and
+    private helpers of the class: (flow, node, expression | None, description)."""
+    out: list[tuple[Any, int, ast.AST | None, str]] = []
+    for alt in select_ifexp(expr, lambda e: None):
+        if isinstance(alt, ast.BoolOp):
+            for v in alt.values:
+                out.extend(operand_stream_leaves(flow, nid, v, fuel))
+            continue
+        if isinstance(alt, ast.NamedExpr):
+            out.extend(operand_stream_leaves(flow, nid, alt.value, fuel))
+            continue
+        if fuel > 0 and (isinstance(alt, ast.Name) or isinstance(unawait(alt), ast.Call)):
+            for o in flow.origin(alt, nid):
+                if o.kind == "expr" and o.node is not None and o.nid is not None and not (o.node is alt and o.flow is flow):
+                    out.extend(operand_stream_leaves(o.flow, o.nid, o.node, fuel - 1))
+                elif o.kind == "expr" and o.node is not None:
+                    out.append((o.flow, o.nid if o.nid is not None else nid, o.node, u(o.node)))
+                else:
+                    out.append((o.flow, o.nid if o.nid is not None else nid, None, o.text()))
+            continue
+        out.append((flow, nid, alt, u(alt)))
+    return out
+
+
+def check_sub(run: Run, prog: Program) -> None:
+    """C13.SUB ("... on a stream not configured to treat missing values as zero ...; on streams so configured a missing
+    value behaves exactly like 0" -- the setting is per stream): an operand of a composed formula is a formula engine
+    of its own, whose inputs carry the missing-value setting (and fallback) they were pushed with.  The composition
+    may only consume such an operand through its *output*: whatever build() hands to push_metric for an operand engine
+    is `<engine>.new_receiver()` on every alternative.  A stream taken from inside the operand (its fetcher's raw
+    receiver, its builder's inputs, a "pass-through" shortcut) bypasses the operand's own MetricFetcher and is
+    re-wrapped with the OUTER build's nones_are_zeros."""
+    from ..engine.normalize import positional
+    from ._c06_util import spliced as _spliced
+
+    pm = prog.func(f"{ENGINE}:FormulaBuilder.push_metric")
+    pparams = [p for p in pm.params if p != "self"]
+    if len(pparams) < 2:
+        raise AnalysisError(f"{pm.qual}: expected (name, stream, ...)")
+    for cname in ("HigherOrderFormulaBuilder", "HigherOrderFormulaBuilder3Phase"):
+        raw = prog.func(f"{ENGINE}:{cname}.build")
+        run.analysed(raw.qual)
+        fl = Flow(prog, _spliced(prog, raw))
+        sites = fl.calls(lambda c: isinstance(c.func, ast.Attribute) and c.func.attr == "push_metric")
+        if not sites:
+            raise AnalysisError(f"{raw.qual}: no push_metric() call found (C13.SUB)")
+        for k, (nid, c) in enumerate(sites):
+            arg = positional(c, pparams).get(pparams[1])
+            if arg is None:
+                raise AnalysisError(f"{raw.qual}: `{u(c)[:60]}` passes no stream")
+            leaves = operand_stream_leaves(fl, nid, arg)
+            bad = sorted({txt for _f, _n, e, txt in leaves
+                          if not (isinstance(e, ast.Call) and isinstance(e.func, ast.Attribute) and e.func.attr == "new_receiver")})
+            run.check(bool(leaves) and not bad, "C13.SUB", raw.qual, f"operand stream of push_metric #{k + 1}",
+                      f"build() can hand push_metric the stream {bad} for an operand engine instead of that engine's output "
+                      "`<engine>.new_receiver()`: the operand's own evaluation -- its MetricFetcher with the nones_are_zeros it was "
+                      "created with (FormulaEngine.from_receiver(..., nones_are_zeros=True), push_metric(..., nones_are_zeros=True)), "
+                      "its fallback, its steps -- is bypassed and the raw stream is wrapped again with the OUTER build()'s setting, so "
+                      "a stream configured to count missing values as zero yields None in the composed formula (and the reverse).  "
+                      "The same holds for any shortcut that reaches into the operand (`._builder`, a fetcher's `.stream`, a cached "
+                      "input receiver) on some branch only", node=c, file=raw.file,
+                      instance=f"{raw.qual}: push_metric #{k + 1} gets <engine>.new_receiver()")
 
 
 def check_policy_key(run: Run, prog: Program) -> None:
@@ -932,6 +1079,10 @@ def check(run: Run, prog: Program, tier: str) -> str:
     run.rule("C13.EMIT", "a complete round (every input delivered, well-formed evaluation) makes apply() return a sample")
     run.rule("C13.UNDEF", "a dividing step pushes NaN when its divisor is zero (never +-inf, which enclosing "
              "steps absorb into finite numbers)")
+    run.rule("C13.DEF", "with every operand present and finite and no divisor exactly zero a step pushes a finite number: "
+             "only an exact zero divisor is 'undefined' (no tolerance test in its place), nothing else turns finite operands into NaN / inf")
+    run.rule("C13.SUB", "a composed formula consumes an operand engine only through its output (`<engine>.new_receiver()` on every "
+             "alternative), so the operand's own per-stream missing-value setting stays in force")
     run.rule("C13.READ", "a metric fetcher's stream is advanced only through fetch_next() (which stores the "
              "sample apply() pushes)")
     run.rule("C13.CONV", "the per-sample conversion on a resampled stream hands a present value on as create(value.base_value) "
@@ -941,6 +1092,8 @@ def check(run: Run, prog: Program, tier: str) -> str:
              "nones_are_zeros setting is not answered with the stored engine")
     run.floor("C13.CONV", 3)
     run.floor("C13.UNDEF", 1)
+    run.floor("C13.DEF", 8)
+    run.floor("C13.SUB", 2)
     run.floor("C13.EMIT", 2)
     run.floor("C13.SYNC", 8)
     run.floor("C13.READ", 3)
